@@ -5,14 +5,16 @@ M: MC_Amino: every string up to a bound over aAcCgGtT + 'N' + 0x81 (all 64 codon
    built from the NCBI table-1 string in TCAG order; CodeTable, ConcatLaw, FrameLaw, NameDomain.  The reading-frame
    code as it was before the fix of D9 (seq[i:] without clamping) must be refuted (TLC exhibits the empty sequence).
 T: every call recorded from the real Translate / TranslateReadingFrames / AminoName (512 codon spellings, all strings
-   up to 4 (quick) / 5 (thorough) over 10 bytes, all 256 bytes at every codon position, seeded concatenations, frames
+   up to 4 (quick) / 6 (thorough) over 10 bytes, all 256 bytes at every codon position, seeded concatenations, frames
    for every length 0..40 (thorough 0..300), all 256 bytes for AminoName, dst prefixes) is judged by Trace_Amino."""
+import os
+
 import c12
 
 
 def run(ctx):
     ctx.rule = ("M: one state per byte string up to the bound; T: one event per real call, judged independently "
-                "against Amino.tla's property-level operators (PTranslate, Frames, NameDomain)")
+                "against Amino.tla's property-level operators (PTranslate, Frames, AminoNameBytes)")
     ctx.assumptions += c12.ASSUME_COMMON + [
         "the genetic code is the 64-letter NCBI table-1 string written in Amino.tla (TLC also checks its degeneracy counts)",
         "TranslateReadingFrames is judged only for sequences over aAcCgGtT (the statement's domain)",
@@ -27,8 +29,11 @@ def run(ctx):
         ctx.model_check("MC_Amino", "MC_Amino_long9", workers=16, heap="8g", timeout=3000)
     # T
     if thorough:
-        t = c12.drive(ctx, ["amino-drive", "@OUT@", 5, 300], "amino.ndjson")
-        c12.judge(ctx, "Trace_Amino", t, "amino", "sequtil", samples=(100, 600, 113000), heap="10g", timeout=3000)
+        parts = 6
+        for part in range(parts):
+            t = c12.drive(ctx, ["amino-drive", "@OUT@", 6, 300, part, parts], "amino_%d.ndjson" % part)
+            c12.judge(ctx, "Trace_Amino", t, "amino", "sequtil", samples=(100, 600, 190000) if part == 0 else (), heap="10g", timeout=3000)
+            os.remove(t)
     else:
         t = c12.drive(ctx, ["amino-drive", "@OUT@", 4, 40], "amino.ndjson")
         c12.judge(ctx, "Trace_Amino", t, "amino", "sequtil", samples=(100, 600, 12700, 13000, 13400))
